@@ -72,6 +72,8 @@ func routesFor(r *Run) (routes string, outerTimeout string) {
 	case "subroute":
 		inner := map[string]any{"handler": "subroute", "matching_timeout": T, "routes": []any{undecidedRoute("H")}}
 		return drive.J([]any{map[string]any{"handle": []any{inner, map[string]any{"handler": "verif_sink", "name": "AFTER"}}}}), "30s"
+	case "http2":
+		return drive.J([]any{map[string]any{"match": []any{map[string]any{"http": []any{map[string]any{"host": []string{"example.com"}}}}}, "handle": []any{map[string]any{"handler": "verif_sink", "name": "H"}}}}), T
 	case "http":
 		return drive.J([]any{map[string]any{"match": []any{map[string]any{"http": []any{}}}, "handle": []any{map[string]any{"handler": "verif_sink", "name": "H"}}}}), T
 	case "errmatcher":
@@ -168,7 +170,7 @@ func run(c *fw.Ctx) {
 				idx++
 				runs = append(runs, &Run{Transport: "udp", Client: "silent", TimeoutMs: to, Phase: ph, Variant: "after-nonterminal", Index: idx})
 				// extra variants, on tcp
-				for _, v := range []string{"subroute", "http", "wrapper", "errmatcher", "aftermatch", "after-nonterminal", "after-nonterminal-late", "or-sets",
+				for _, v := range []string{"subroute", "http", "wrapper", "errmatcher", "aftermatch", "after-nonterminal", "after-nonterminal-late", "or-sets", "http2",
 					"aftermatch-empty", "aftermatch-empty-nomatcher", "aftermatch-take"} {
 					idx++
 					cl := "trickle"
@@ -332,6 +334,22 @@ func runTCP(canary *oracle.Canary, r *Run) *outcome {
 			_ = client.CloseWrite()
 		case r.Variant == "errmatcher":
 			_, _ = client.Write([]byte("x"))
+		case r.Variant == "http2":
+			// HTTP/2 with prior knowledge: preface and SETTINGS at once, then a HEADERS frame that announces 200 bytes of
+			// header block and delivers them one byte at a time (never all of them within the timeout)
+			_, _ = client.Write([]byte("PRI * HTTP/2.0\r\n\r\nSM\r\n\r\n"))
+			_, _ = client.Write([]byte{0, 0, 0, 4, 0, 0, 0, 0, 0})
+			_, _ = client.Write([]byte{0, 0, 200, 1, 5, 0, 0, 0, 1})
+			for {
+				select {
+				case <-time.After(40 * time.Millisecond):
+					if _, err := client.Write([]byte{0x82}); err != nil {
+						return
+					}
+				case <-stopClient:
+					return
+				}
+			}
 		case r.Variant == "http":
 			_, _ = client.Write([]byte("GET / HTTP/1.1\r\nHost: example.com\r\nX-Slow: "))
 			for {
@@ -429,7 +447,7 @@ func runTCP(canary *oracle.Canary, r *Run) *outcome {
 	o.observed["bytes_pulled"] = server.BytesRead.Load()
 	o.observed["canary_max"] = canary.MaxOversleep().String()
 
-	abortByTimeout := r.Client == "silent" || r.Client == "trickle" || r.Variant == "http"
+	abortByTimeout := r.Client == "silent" || r.Client == "trickle" || r.Variant == "http" || r.Variant == "http2"
 	if r.Variant == "errmatcher" {
 		abortByTimeout = false
 	}
